@@ -206,17 +206,20 @@ Proof.
   destruct K as [A B C D]. repeat split; assumption || (intros; apply D; assumption).
 Qed.
 
-(* a clear() that does not throw leaves nothing recorded but the two bucket vectors: the in-use pages are those vectors and the
-   blocks of the other tenants *)
-Lemma clear_ok_leaves_vectors ms F ops r0 : ms - self_size < 2 ^ 63 -> RI ms F r0 -> clean r0 ->
-  let r1 := rrun true ops r0 in
-  snd (nl_clear r1) = true ->
-  let r := rclear r1 in
-  only is_tv r /\ forall o, (exists b, used (r_a r) o b) <-> In (o + 16) (ptrs r ++ F).
+(* any limit: clear() - whether or not one of its two rehash calls throws - leaves nothing recorded but bucket vectors: the
+   four indexes are empty; the in-use pages are those vectors and the blocks of the other tenants *)
+Lemma clear_leaves_vectors ms F ops r0 : ms - self_size < 2 ^ 63 -> RI ms F r0 -> clean r0 ->
+  let r := rclear (rrun true ops r0) in
+  only is_tv r /\ count is_pn r = 0 /\ count is_tn r = 0 /\
+  forall o, (exists b, used (r_a r) o b) <-> In (o + 16) (ptrs r ++ F).
 Proof.
-  intros Hms H Hc r1 Hs r.
-  pose proof (RI_rclear ms Hms F _ (RI_rrun ms Hms F ops r0 H)) as K. fold r1 in K. fold r in K.
-  split; [exact (clear_ok_only_vectors r1 (clean_rrun true ops r0 Hc) Hs)|].
+  intros Hms H Hc r.
+  pose proof (RI_rclear ms Hms F _ (RI_rrun ms Hms F ops r0 H)) as K. fold r in K.
+  pose proof (clear_only_vectors _ (clean_rrun true ops r0 Hc)) as V. fold r in V.
+  assert (Z : forall P : tag -> bool, (forall t, is_tv t = true -> P t = false) -> count P r = 0).
+  { intros P HP. unfold count. unfold only in V. induction (r_b r) as [|e l IH]; [reflexivity|].
+    cbn [forallb filter] in *. apply andb_true_iff in V. destruct V as [V1 V2]. rewrite (HP _ V1). exact (IH V2). }
+  split; [exact V|]. split; [apply Z; intros t; destruct t; cbn; congruence|]. split; [apply Z; intros t; destruct t; cbn; congruence|].
   intros o. split.
   - intros (b & Hb). exact (ai_live _ _ _ K o b Hb).
   - intros Hin. destruct (ai_own _ _ _ K _ Hin) as (_ & b & Hb). exists b. replace (o + 16 - 16) with o in Hb by lia. exact Hb.
